@@ -28,7 +28,7 @@ func init() {
 	facet.Register(facet.F[WalkIn]{
 		Prop: "C19", Name: "unknown-as-null",
 		Rule:  "unmarked value (marks are stripped from the generated spec: UnknownAsNull documents nothing about marks) of nesting depth >= 2 with an unknown member below the root; the result must have the same type, a null of the same type wherever the spec has an unknown, and be unchanged elsewhere; distinct = hash of the input JSON",
-		Quick: 30000, Thorough: 200000,
+		Quick: 30000, Thorough: 70000,
 		Gen: func(t *rapid.T) WalkIn { return WalkIn{V: genValue(t).StripMarks(), Stop: -1} },
 		Check: func(c *facet.Ctx, in WalkIn) error {
 			v := in.V.StripMarks()
